@@ -3,6 +3,7 @@ package main
 import (
 	"fmt"
 	"go/ast"
+	"sort"
 	"strings"
 
 	"golang.org/x/tools/go/ssa"
@@ -45,7 +46,7 @@ var mapExceptions = map[string]mapException{
 }
 
 func runC08(c *Check) {
-	c.Explanation = "Decides the ordering clauses of C08 for every input and every map-iteration seed: every function that can run as a sort's less is a well-formed lexicographic chain whose guards and ordering keys coincide and whose operands are mirror images (strict weak order, R1); the orders of report entries, edges and tags contain an identity key of what they order (total order, R3); every range over a map in non-test code is order-insensitive, or feeds a slice that is sorted by one of those orders before any other use, or is covered by a reviewed exception naming the invariant relied on (R2). Not decided: equality of floating-point layout hints, the external dot binary, goroutine completion order (C16)."
+	c.Explanation = "Decides the ordering clauses of C08 for every input and every map-iteration seed: every function that can run as a sort's less is a well-formed lexicographic chain whose guards and ordering keys coincide and whose operands are mirror images (strict weak order, R1); the orders of report entries, edges and tags contain an identity key of what they order (total order, R3); every range over a map in non-test code is order-insensitive, or feeds a slice that is sorted by one of those orders before any other use, or is covered by a reviewed exception naming the invariant relied on (R2). Round-I additions: the scratch fields are rebuilt and read inside one critical section of encodeMu (shared with C20-R1). Not decided: equality of floating-point layout hints, the external dot binary, goroutine completion order (C16)."
 	parsed := c.comparatorRules()
 	c.totalityRules(parsed)
 	// "however often it has been run in the session": serializing the same profile again
@@ -112,7 +113,17 @@ func (c *Check) mapRules() {
 				}
 			}
 			if !ok {
-				ex, ok = inheritedMapException(p, s)
+				// several functions may call the helper: the first (in key order) whose
+				// invariant is verified for this loop applies, else the first one
+				for i, cand := range inheritedMapExceptions(p, s) {
+					if i == 0 {
+						ex, ok = cand, true
+					}
+					if cand.verify == nil || cand.verify(c, s) == "" {
+						ex, ok = cand, true
+						break
+					}
+				}
 			}
 			if ok {
 				broken := ""
@@ -552,12 +563,29 @@ func blockReachesPlain(from, to *ssa.BasicBlock) bool {
 // inheritedMapException: a loop that was moved into a helper keeps the reviewed exception
 // of the function (same package) that calls the helper, when the ranged map is the same.
 func inheritedMapException(p *Program, s *mapSite) (mapException, bool) {
-	dot := strings.LastIndex(s.fn, ".")
-	if dot < 0 {
+	cands := inheritedMapExceptions(p, s)
+	if len(cands) == 0 {
 		return mapException{}, false
 	}
+	return cands[0], true
+}
+
+// inheritedMapExceptions lists, in a fixed order (sorted by key), the reviewed exceptions of
+// the functions that call the helper containing s.
+func inheritedMapExceptions(p *Program, s *mapSite) []mapException {
+	var out []mapException
+	dot := strings.LastIndex(s.fn, ".")
+	if dot < 0 {
+		return nil
+	}
 	pkgPrefix, helper := s.fn[:strings.Index(s.fn, ".")+1], s.fn[dot+1:]
-	for key, ex := range mapExceptions {
+	var keys []string
+	for key := range mapExceptions {
+		keys = append(keys, key)
+	}
+	sort.Strings(keys)
+	for _, key := range keys {
+		ex := mapExceptions[key]
 		parts := strings.SplitN(key, ":range ", 2)
 		if len(parts) != 2 || parts[1] != s.stableExpr() || !strings.HasPrefix(parts[0], pkgPrefix) || parts[0] == s.fn {
 			continue
@@ -606,8 +634,8 @@ func inheritedMapException(p *Program, s *mapSite) (mapException, bool) {
 		walk(owner, 0)
 		if calls {
 			ex.why += " [loop now in helper " + s.fn + "]"
-			return ex, true
+			out = append(out, ex)
 		}
 	}
-	return mapException{}, false
+	return out
 }
